@@ -208,16 +208,15 @@ impl RoutePattern {
             if let Some(part) = part {
                 let part_decoded = percent_decode_str(part);
                 if let Some(segment) = segment {
-                    let segment_decoded = percent_decode_str(segment.segment_str(pattern.as_str()));
+                    let segment_str = segment.segment_str(pattern.as_str());
                     if segment.parameter {
                         let collected = part_decoded.decode_utf8_lossy().to_string();
                         if collected.is_empty() {
                             return None;
                         } else {
-                            param_map
-                                .insert(segment_decoded.decode_utf8_lossy().to_string(), collected);
+                            param_map.insert(segment_str.to_string(), collected);
                         }
-                    } else if !part_decoded.eq(segment_decoded) {
+                    } else if !part_decoded.eq(percent_decode_str(segment_str)) {
                         return None;
                     }
                 } else {
@@ -343,7 +342,8 @@ impl RoutePattern {
             for (left, right) in segs_left.iter().zip(segs_right.iter()) {
                 if !left.parameter
                     && !right.parameter
-                    && left.segment_str(pat_left.as_str()) != right.segment_str(pat_right.as_str())
+                    && !percent_decode_str(left.segment_str(pat_left.as_str()))
+                        .eq(percent_decode_str(right.segment_str(pat_right.as_str())))
                 {
                     return false;
                 }
